@@ -13,6 +13,7 @@
 Does not decide: validity of the algebraic rewrites (bit-vector identities).
 How: R1 by may-flow from the slot's bindings (in the function or helpers it calls) to an input_vars() that feeds the set;
 R2 by specialising the removal loop per Def kind x alive/dead (is the def kept?).
+ R4 precondition clause by specialisation: a Def of kind V writes an input of the precondition => a None result appears
 """
 from .lib import slots as SL
 from .lib import sym as S
